@@ -51,14 +51,17 @@ distinct by request line and seed";
 
 fn gen_case(rng: &mut SplitMix) -> (bool, Leaf, PopRaw) {
     let score = rng.chance(1, 2);
-    let pop = gen_pop(rng, 12, 2, false);
+    // mostly small populations; one case in eight is large (implementations switch strategy with the ratio of
+    // population to tournament size, or with word-sized bit sets: 24 .. 300 individuals, many tied scores)
+    let big = rng.chance(1, 8);
+    let pop = if big { gen_pop(rng, *rng.clone().pick(&[24u64, 40, 65, 130, 300]), 2, false) } else { gen_pop(rng, 12, 2, false) };
     let n = pop.len();
     let sel = match rng.below(7) {
         0 => Leaf::Best,
         1 => Leaf::Worst,
         2 => Leaf::Random,
         _ => {
-            let k = match rng.below(6) { 0 => 1, 1 => n.max(1), 2 => n + 1, _ => 1 + rng.below(n as u64 + 1) as usize };
+            let k = if big && rng.chance(2, 3) { 1 + rng.below(8) as usize } else { match rng.below(6) { 0 => 1, 1 => n.max(1), 2 => n + 1, _ => 1 + rng.below(n as u64 + 1) as usize } };
             Leaf::Tournament(k)
         }
     };
